@@ -409,6 +409,29 @@ allowPorts = [{start=%d,end=%d}]
 			c.Violation("frps-wedged-new-registration", "fresh login + registration + echo after the barrage fails: %s", lastErr)
 		}
 	}
+	// group registrations still work (a lock-order slip between a join and a last leave wedges one group kind for
+	// every session while everything else keeps working)
+	if fresh != nil && fresh.LoggedIn() && vhostLines != "" {
+		for _, m := range []*msg.NewProxy{
+			{ProxyName: b.pfx + "pg-tcp", ProxyType: "tcp", RemotePort: hi - 45, Group: b.pfx + "pg1", GroupKey: "k"},
+			{ProxyName: b.pfx + "pg-http", ProxyType: "http", CustomDomains: []string{b.pfx + "pg.test"}, Group: b.pfx + "pg2", GroupKey: "k"},
+			{ProxyName: b.pfx + "pg-mux", ProxyType: "tcpmux", Multiplexer: "httpconnect", CustomDomains: []string{b.pfx + "pg.mux.test"}, Group: b.pfx + "pg3", GroupKey: "k"},
+		} {
+			r, err := fresh.NewProxy(m, 30*time.Second)
+			if err != nil {
+				c.Data["last_messages"] = b.log.tail()
+				c.Violation("frps-wedged-group-registration", "after the barrage a %s group registration (group %s) gets no reply within 30 s: %v", m.ProxyType, m.Group, err)
+				continue
+			}
+			if r.Error == "" {
+				_ = fresh.CloseProxy(m.ProxyName)
+				if _, err := fresh.Ping(30 * time.Second); err != nil {
+					c.Violation("frps-wedged-group-registration", "after the barrage the close of a %s group proxy wedges the session: no Pong within 30 s: %v", m.ProxyType, err)
+					break
+				}
+			}
+		}
+	}
 	judgeRaces(c, "frps", child)
 	if c.Idx < 2 {
 		run.Sample(map[string]any{"batch": "frps", "messages": b.log.n.Load(), "sample_messages": firstN(b.log.tail(), 5)})
@@ -724,13 +747,16 @@ func (b *batch) groupChurn(g *gen, n int) {
 			wg.Add(1)
 			go func(j int, p *h.Peer) {
 				defer wg.Done()
-				for r := 0; r < 6; r++ {
+				for r := 0; r < 9; r++ {
 					name := fmt.Sprintf("%sgm%d-%d", b.pfx, i, j)
 					var m *msg.NewProxy
-					if r%2 == 0 {
+					switch r % 3 {
+					case 0:
 						m = &msg.NewProxy{ProxyName: name, ProxyType: "tcp", RemotePort: port, Group: gname, GroupKey: "k"}
-					} else {
+					case 1:
 						m = &msg.NewProxy{ProxyName: name, ProxyType: "http", CustomDomains: []string{gname + ".test"}, Group: gname, GroupKey: "k"}
+					default:
+						m = &msg.NewProxy{ProxyName: name, ProxyType: "tcpmux", Multiplexer: "httpconnect", CustomDomains: []string{gname + ".mux.test"}, Group: gname, GroupKey: "k"}
 					}
 					b.log.add("group-join", m)
 					_, _ = p.NewProxy(m, 10*time.Second)
